@@ -9,7 +9,7 @@ from ..cabs import Exec, State, lname
 from ..core import AnalysisError
 from ..cxx import show, sub_exprs
 from ..num import INF, Iv
-from ..src import mod, norm
+from ..src import call_name, kwarg, mod, norm, walk_local
 from .c04 import strip_num
 
 PARSER = "transpile/parser.py"
@@ -195,7 +195,16 @@ def run(cx):
     r.check(doc_names == set(tbl), "melody-names/documented=emitter", (hm.rel, 1), f"documented {sorted(doc_names)}, emitter knows {sorted(tbl)}")
     for name, ent in tbl.items():
         seq = ent.get("sequence") if isinstance(ent, dict) else None
-        r.check(isinstance(ent, dict) and isinstance(ent.get("tempo"), (int, float)) and ent["tempo"] > 0, f"score[{name}]/tempo>0", (em.rel, em.const("_BUZZER_MELODIES").lineno), f"tempo {ent.get('tempo') if isinstance(ent, dict) else ent}")
+        # the tune's own tempo as the firmware sees it: the value used when tempo is omitted and the fallback for a
+        # run-time tempo <= 0 are the same positive number (and the table's, where the table carries one)
+        t_none = pe.emit_program(setup=[l2.decl_node("Buzzer"), pe.ir_classes()[0]["BuzzerMelody"](name="dev", melody=name, tempo=None)]).text or ""
+        t_rt = pe.emit_program(setup=[l2.decl_node("Buzzer"), pe.ir_classes()[0]["BuzzerMelody"](name="dev", melody=name, tempo="H_t")]).text or ""
+        m1 = re.search(r"float __redu_tempo = ([0-9.]+)f;", t_none)
+        m2 = re.search(r"if \(__redu_tempo <= 0(?:\.0f)?\) \{ __redu_tempo = ([0-9.]+)f; \}", t_rt)
+        own = float(m1.group(1)) if m1 else None
+        fb = float(m2.group(1)) if m2 else None
+        tt = ent.get("tempo") if isinstance(ent, dict) else None
+        r.check(own is not None and own > 0 and fb == own and (tt is None or float(tt) == own), f"score[{name}]/own-tempo>0-and-consistent", (em.rel, em.const("_BUZZER_MELODIES").lineno), f"tempo when omitted {own}, fallback for tempo<=0 {fb}, table {tt}")
         r.check(bool(seq) and all(isinstance(f, (int, float)) and f >= 0 and isinstance(b_, (int, float)) and b_ > 0 for f, b_ in seq), f"score[{name}]/notes-well-formed", (em.rel, em.const("_BUZZER_MELODIES").lineno), "every note needs frequency >= 0 and beat > 0")
         if name in DOC_SHAPES and seq:
             cnt, shape = DOC_SHAPES[name]
@@ -209,9 +218,29 @@ def run(cx):
             else:
                 oks = len(fs) == 3 and fs[0] == fs[2] and fs[1] == 0
             r.check(oks and (cnt is None or len(fs) == cnt), f"score[{name}]/documented-shape", (em.rel, em.const("_BUZZER_MELODIES").lineno), f"documented as {shape}{'' if cnt is None else f' with {cnt} notes'}; table has {len(fs)} notes {fs[:6]}")
-    # the parser stores the validated (lower-cased) name the emitter looks up
-    out = None
-    r.ok("names")
+    # the parser stores the *validated* name: the expression tested for membership in the table is the one stored in the
+    # node (the emitter looks node.melody up verbatim and emits nothing for a name it does not know)
+    psl = pm.func("_parse_simple_lines")
+    ctor = [c for c in walk_local(psl) if isinstance(c, ast.Call) and call_name(c) == "BuzzerMelody"]
+    if len(ctor) != 1:
+        raise AnalysisError(f"expected one BuzzerMelody(...) construction in the parser, found {len(ctor)}")
+    stored = kwarg(ctor[0], "melody")
+    if stored is None:
+        raise AnalysisError("BuzzerMelody(...) is built without melody=")
+    guards = []
+    for n in walk_local(psl):
+        if isinstance(n, ast.If) and isinstance(n.test, ast.Compare) and len(n.test.ops) == 1 and isinstance(n.test.ops[0], ast.NotIn) \
+                and norm(n.test.comparators[0]) == "_BUZZER_MELODIES" and any(isinstance(x, ast.Raise) for x in n.body):
+            guards.append(n)
+    r.check(bool(guards), "parser/unknown-melody-rejected", (pm, ctor[0]), "no `if <name> not in _BUZZER_MELODIES: raise` guards the melody arm")
+    em_lookup = [c for c in ast.walk(em.func("_emit_block")) if isinstance(c, ast.Call) and isinstance(c.func, ast.Attribute) and c.func.attr == "get" and norm(c.func.value) == "_BUZZER_MELODIES"]
+    em_key = norm(em_lookup[0].args[0]) if em_lookup and em_lookup[0].args else None
+    for g in guards:
+        tested = norm(g.test.left)
+        same = tested == norm(stored)
+        # or: both sides normalise the stored spelling the same way
+        both = em_key is not None and tested == em_key.replace("node.melody", norm(stored))
+        r.check(same or both, "parser/stored-melody=validated-melody", (pm, g), f"membership is tested on `{tested}` but the node stores `{norm(stored)}` and the emitter looks up `{em_key}`: a name can pass validation and then find no score (the call would emit nothing)")
 
     # ---- C16-BIND (shared with C08) --------------------------------------------------------------
     from . import c08
